@@ -245,6 +245,8 @@ func newRoot(limit int) *otto.Otto {
 	vm.SetStackDepthLimit(limit)
 	if rootTraceLimit > 0 {
 		vm.SetStackTraceLimit(rootTraceLimit)
+	} else if rootTraceLimit < 0 {
+		vm.SetStackTraceLimit(0) // 0 is a legal setting: no limit
 	}
 	installCopy(vm)
 	return vm
@@ -603,6 +605,7 @@ var observeFragments = []string{
 	"try{var hp=hpair(2,3);rec(String(hp)+':'+(hp instanceof Array)+':'+(Object.getPrototypeOf(hp)===Array.prototype))}catch(e){rec('E'+e)}",
 	"try{hpair(1)}catch(e){rec(e.name+':'+(e instanceof RangeError)+':'+(Object.getPrototypeOf(e)===RangeError.prototype))}",
 	"try{rec(typeof H.dive==='function'?H.dive(25)+':'+H.dive(3):'nodive')}catch(e){rec('E'+e)}",
+	"try{rec('tl'+(function d(k){if(k<=0){try{null.x}catch(e){return String(e.stack).split('\\n').length}}return d(k-1)})(17))}catch(e){rec('E'+e)}",
 	"try{rec(H.realEval?(function(eval){var loc='local';return eval('loc')})(H.realEval)+':'+eval('loc'):'noeval')}catch(e){rec('E'+e)}",
 	"for(var k in H){try{if(k.slice(0,2)==='pa')rec(k+':'+H[k]())}catch(e){rec('E'+e)}}",
 	"for(var k in H){try{if(k.slice(0,2)==='em'||k.slice(0,2)==='ea'||k.slice(0,2)==='ef'){var eo=H[k];rec(k+':'+eo.m0+':'+eo.pk5+':'+eo.touched+':'+Object.keys(eo).join())}}catch(e){rec('E'+e)}}",
@@ -673,8 +676,11 @@ func (copyEngine) Gen(t *rapid.T, tier string) interface{} {
 	if rapid.Bool().Draw(t, "limit?") {
 		c.Limit = rapid.IntRange(20, 60).Draw(t, "limit")
 	}
-	if rapid.IntRange(0, 2).Draw(t, "trace?") == 2 {
+	switch rapid.IntRange(0, 3).Draw(t, "trace?") {
+	case 2:
 		c.Trace = rapid.IntRange(1, 30).Draw(t, "trace")
+	case 3:
+		c.Trace = -1 // SetStackTraceLimit(0): unlimited
 	}
 	uid := 0
 	maxOps, maxNodes := 10, 6
